@@ -223,13 +223,17 @@ func init() {
 
 func genC20(c *Ctx) {
 	keys := []string{"aSecretKey", "k", "another-key-0123456789", "\x00\x01\xff"}
-	users := []string{"@alice:example.org", "@bob:example.org", "@alice:example.org ", "a", "@victim:x"}
-	durs := []string{"0", "30", "120", "3600", "-1", "-100", "86400"}
+	users := []string{"@alice:example.org", "@bob:example.org", "@alice:example.org ", "a", "@victim:x",
+		// user IDs made of / starting with the characters of the caveat prefix "user_id = "
+		"sue:example.org", "user_one", "id=5", " spaced", "=", "user_id = x", "d"}
+	durs := []string{"0", "30", "120", "3600", "-1", "-100", "86400",
+		// beyond what a time.Duration in nanoseconds can hold (about 292 years)
+		"9223372037", "-9223372037", "10000000000", "-10000000000", "4000000000000"}
 	pick := func(l []string) string { return l[c.Rng.Intn(len(l))] }
 
 	// 1. issue: id + caveats must be exactly what the model mints
 	for _, d := range durs {
-		for _, u := range users[:3] {
+		for _, u := range users {
 			c.Run("C20.issue", Args(pick(keys), u, "", d), "C20.issue", "C20.prop.issue", "issue")
 			c.Count("issue")
 		}
